@@ -40,6 +40,8 @@ pub enum KeyShape {
     /// well-formed key document whose `guid` is a relative path: into a folder that does not exist / that exists (the log folder)
     GuidPathNew,
     GuidPathExisting,
+    /// well-formed key document whose `guid` is not a name at all: "" (0), "." (1), ".." (2)
+    GuidSpecial(u8),
     /// well-formed key document whose key is valid hex of another size: 512 bits / 128 bits
     Hex512,
     Hex128,
@@ -75,6 +77,9 @@ pub struct HostState {
     pub calls: Vec<String>,
     /// a hook the rigs use to be called at the instant an attestation request arrives (C08)
     pub goalstate_override: Option<ResponseSpec>,
+    /// status codes with which the next signed requests of the agent's own clients / relayed requests are refused (after their
+    /// signature has been checked like any other)
+    pub refuse_signed: VecDeque<u16>,
     pub instance_override: Option<ResponseSpec>,
     pub shared_config_override: Option<ResponseSpec>,
     pub telemetry_script: VecDeque<Fault>,
@@ -199,6 +204,7 @@ impl KeyHost {
                 signature_failures: Vec::new(),
                 calls: Vec::new(),
                 goalstate_override: None,
+                refuse_signed: VecDeque::new(),
                 instance_override: None,
                 shared_config_override: None,
                 telemetry_script: VecDeque::new(),
@@ -242,10 +248,11 @@ impl HostState {
         let guid = match self.key_shape {
             KeyShape::GuidPathNew => format!("../exported/{}", guid),
             KeyShape::GuidPathExisting => format!("../logs/{}", guid),
+            KeyShape::GuidSpecial(k) => ["", ".", ".."][k as usize % 3].to_string(),
             _ => guid,
         };
         let key = match self.key_shape {
-            KeyShape::Good | KeyShape::GuidPathNew | KeyShape::GuidPathExisting => hmacsha::hex_lower(&h).to_uppercase(),
+            KeyShape::Good | KeyShape::GuidPathNew | KeyShape::GuidPathExisting | KeyShape::GuidSpecial(_) => hmacsha::hex_lower(&h).to_uppercase(),
             KeyShape::NonHex => format!("ZZ{}", &hmacsha::hex_lower(&h).to_uppercase()[2..]),
             KeyShape::OddLength => hmacsha::hex_lower(&h).to_uppercase()[1..].to_string(),
             KeyShape::Hex512 => format!("{}{}", hmacsha::hex_lower(&h).to_uppercase(), hmacsha::hex_lower(&hmacsha::sha256(&h)).to_uppercase()),
@@ -276,7 +283,11 @@ impl HostState {
         let path = r.target.split('?').next().unwrap_or("").to_string();
         self.calls.push(format!("{} {} {}", r.listener, r.method, r.target));
         if r.listener == "imds" {
-            self.check_signature(r);
+            if self.check_signature(r).is_some() {
+                if let Some(code) = self.refuse_signed.pop_front() {
+                    return ResponseSpec::status(code, b"refused");
+                }
+            }
             if let Some(o) = &self.instance_override {
                 return o.clone();
             }
@@ -388,7 +399,11 @@ impl HostState {
             return ResponseSpec::status(403, b"attestation MAC does not verify");
         }
         if r.method == "GET" && r.target == "/machine?comp=goalstate" {
-            self.check_signature(r);
+            if self.check_signature(r).is_some() {
+                if let Some(code) = self.refuse_signed.pop_front() {
+                    return ResponseSpec::status(code, b"refused");
+                }
+            }
             if let Some(o) = &self.goalstate_override {
                 return o.clone();
             }
@@ -396,7 +411,11 @@ impl HostState {
             return ResponseSpec::ok(body.as_bytes()).with_header("Content-Type", "text/xml; charset=utf-8");
         }
         if r.method == "GET" && r.target.starts_with("/machine/") && r.target.contains("type=sharedConfig") {
-            self.check_signature(r);
+            if self.check_signature(r).is_some() {
+                if let Some(code) = self.refuse_signed.pop_front() {
+                    return ResponseSpec::status(code, b"refused");
+                }
+            }
             if let Some(o) = &self.shared_config_override {
                 return o.clone();
             }
